@@ -148,7 +148,7 @@ func TestEvsim(t *testing.T) {
 		}
 		seed := RunSeed(batch, prop, n)
 		s := arm.Gen(newRng(seed), seed, tier)
-		rep := ExecScript(t, prop, s, false)
+		rep := ExecScript(t, prop, s, os.Getenv("EVSIM_LOG") != "")
 		if n == from || len(rep.Viol) > 0 {
 			// keep one sample script per worker
 			bz, _ := json.Marshal(s)
